@@ -669,6 +669,8 @@ func (c *ctx) c15ReplayRun() {
 	t := ts[rp.Type]
 	b, herr := hex.DecodeString(rp.Bytes)
 	switch {
+	case rp.What == "restore-repeat":
+		c.c15RepeatReplay(rp)
 	case rp.What == "later-session" || rp.What == "restore-not-equal" || rp.What == "restore" || rp.What == "marshal":
 		// session scenarios are re-run whole (same seed: same schedule)
 		c.c15Sessions()
